@@ -3267,7 +3267,23 @@ impl PeerConnection {
 
     pub async fn recv(&self) -> Option<PeerConnectionEvent> {
         let mut rx = self.inner.event_rx.lock().await;
-        rx.recv().await
+        // The sender lives in the connection itself, so the channel never closes on its
+        // own and a caller (who holds the connection) would wait forever after close().
+        // Once the connection is Closed: hand out what is still queued, then end.
+        let mut state_rx = self.inner.peer_state.subscribe();
+        loop {
+            if *state_rx.borrow_and_update() == PeerConnectionState::Closed {
+                return rx.try_recv().ok();
+            }
+            tokio::select! {
+                ev = rx.recv() => return ev,
+                res = state_rx.changed() => {
+                    if res.is_err() {
+                        return rx.try_recv().ok();
+                    }
+                }
+            }
+        }
     }
 
     /// Initialize a T.38 fax endpoint for the Image transceiver.
